@@ -74,3 +74,139 @@ pub broadcast proof fn lemma_and_0f_le(x: u8)
 {
     assert((x & 0xf) <= 15) by (bit_vector);
 }
+
+// ---------------------------------------------------------------------------
+// Packed BCD (C17)
+// ---------------------------------------------------------------------------
+/// the byte holding the two least significant decimal digits of k
+pub open spec fn bcd_byte(k: nat) -> u8 {
+    ((k % 10) as u8) | ((((k / 10) % 10) as u8) << 4)
+}
+/// least significant byte first (the order in which the encoder produces them)
+pub open spec fn bcd_rev(k: nat) -> Seq<u8>
+    decreases k
+{
+    if k == 0 { Seq::<u8>::empty() } else { seq![bcd_byte(k)] + bcd_rev(k / 10 / 10) }
+}
+/// most significant digit first: the wire form. No leading zero byte; 0 is the empty string.
+pub open spec fn bcd_msb(k: nat) -> Seq<u8>
+    decreases k
+{
+    if k == 0 { Seq::<u8>::empty() } else { bcd_msb(k / 100).push(bcd_byte(k)) }
+}
+/// one decoding step: two digits, or one digit when the low nibble is the F filler
+pub open spec fn bcd_step(p: nat, d: u8) -> nat {
+    if (d & 0xf) != 0xf { p * 100 + ((d >> 4) as nat) * 10 + (d & 0xf) as nat } else { p * 10 + (d >> 4) as nat }
+}
+/// value of the first j bytes; None as soon as it no longer fits `max`
+pub open spec fn bcd_fold(b: Seq<u8>, j: nat, max: nat) -> Option<nat>
+    decreases j
+{
+    if j == 0 { Some(0nat) } else {
+        match bcd_fold(b, (j - 1) as nat, max) {
+            None => None,
+            Some(p) => if bcd_step(p, b[j - 1]) > max { None } else { Some(bcd_step(p, b[j - 1])) },
+        }
+    }
+}
+/// unbounded value of the first j bytes
+pub open spec fn bcd_val(b: Seq<u8>, j: nat) -> nat
+    decreases j
+{
+    if j == 0 { 0 } else { bcd_step(bcd_val(b, (j - 1) as nat), b[j - 1]) }
+}
+
+pub broadcast proof fn lemma_bcd_fold_overflow(b: Seq<u8>, j: nat, n: nat, max: nat)
+    requires j < n, (#[trigger] bcd_fold(b, j, max)) matches Some(p) && bcd_step(p, b[j as int]) > max,
+    ensures (#[trigger] bcd_fold(b, n, max)) is None
+    decreases n
+{
+    if n > j + 1 { lemma_bcd_fold_overflow(b, j, (n - 1) as nat, max); }
+}
+
+pub broadcast proof fn lemma_shr4_le(x: u8)
+    ensures #[trigger] (x >> 4) <= 15
+{
+    assert((x >> 4) <= 15) by (bit_vector);
+}
+
+pub proof fn lemma_bcd_step_mono(p: nat, d: u8)
+    ensures bcd_step(p, d) >= p
+{
+    assert(p * 100 >= p) by (nonlinear_arith);
+    assert(p * 10 >= p) by (nonlinear_arith);
+}
+
+/// the bounded fold is the unbounded value when it fits, None otherwise
+pub proof fn lemma_bcd_fold_val(b: Seq<u8>, j: nat, max: nat)
+    ensures
+        bcd_val(b, j) <= max ==> bcd_fold(b, j, max) == Some(bcd_val(b, j)),
+        bcd_val(b, j) > max ==> bcd_fold(b, j, max) is None,
+    decreases j
+{
+    if j > 0 {
+        lemma_bcd_fold_val(b, (j - 1) as nat, max);
+        lemma_bcd_step_mono(bcd_val(b, (j - 1) as nat), b[j - 1]);
+    }
+}
+
+pub proof fn lemma_bcd_val_prefix(a: Seq<u8>, b: Seq<u8>, j: nat)
+    requires j <= a.len(), j <= b.len(), forall|i: int| 0 <= i < j ==> a[i] == b[i],
+    ensures bcd_val(a, j) == bcd_val(b, j)
+    decreases j
+{
+    if j > 0 { lemma_bcd_val_prefix(a, b, (j - 1) as nat); }
+}
+
+pub proof fn lemma_bcd_nibbles(lo: u8, hi: u8)
+    requires lo < 16, hi < 16
+    ensures ((lo | (hi << 4)) & 0xf) == lo, ((lo | (hi << 4)) >> 4) == hi
+{
+    assert(lo < 16 && hi < 16 ==> ((lo | (hi << 4)) & 0xf) == lo && ((lo | (hi << 4)) >> 4) == hi) by (bit_vector);
+}
+
+/// decoding the wire form gives the number back; all nibbles are decimal digits
+pub proof fn lemma_bcd_msb_val(k: nat)
+    ensures
+        bcd_val(bcd_msb(k), bcd_msb(k).len()) == k,
+        forall|i: int| 0 <= i < bcd_msb(k).len() ==> ((#[trigger] bcd_msb(k)[i]) & 0xf) < 10 && (bcd_msb(k)[i] >> 4) < 10,
+        k > 0 ==> bcd_msb(k).len() > 0 && (bcd_msb(k)[0] != 0),
+    decreases k
+{
+    if k > 0 {
+        let s = bcd_msb(k / 100);
+        lemma_bcd_msb_val(k / 100);
+        let lo = (k % 10) as u8;
+        let hi = ((k / 10) % 10) as u8;
+        lemma_bcd_nibbles(lo, hi);
+        let full = s.push(bcd_byte(k));
+        assert(bcd_msb(k) =~= full);
+        lemma_bcd_val_prefix(s, full, s.len());
+        assert(bcd_val(full, full.len()) == bcd_step(bcd_val(full, s.len()), full[s.len() as int]));
+        assert(k == (k / 100) * 100 + ((k / 10) % 10) * 10 + k % 10);
+        if k / 100 == 0 {
+            assert(s.len() == 0);
+            assert(lo != 0 || hi != 0);
+            assert(bcd_byte(k) != 0) by {
+                assert(lo < 16 && hi < 16 && (lo != 0 || hi != 0) ==> (lo | (hi << 4)) != 0) by (bit_vector);
+            }
+        } else {
+            assert(full[0] == s[0]);
+        }
+    }
+}
+
+/// the encoder's byte order reversed is the wire form
+pub proof fn lemma_bcd_rev_msb(k: nat)
+    ensures bcd_rev(k).reverse() =~= bcd_msb(k)
+    decreases k
+{
+    if k > 0 {
+        lemma_bcd_rev_msb(k / 100);
+        assert(k / 10 / 10 == k / 100);
+        let t = bcd_rev(k / 100);
+        let x = seq![bcd_byte(k)] + t;
+        assert(bcd_rev(k) =~= x);
+        assert(x.reverse() =~= t.reverse().push(bcd_byte(k)));
+    }
+}
